@@ -7,6 +7,7 @@ import (
 	"strings"
 
 	"github.com/vapourismo/knx-go/knx"
+	"github.com/vapourismo/knx-go/knx/cemi"
 	"github.com/vapourismo/knx-go/knx/knxnet"
 	"github.com/vapourismo/knx-go/verifmc/mc"
 	"verifh/harness/fakesock"
@@ -38,7 +39,7 @@ func c17Consumer(n int, recv func() (interface{}, bool), from string) {
 	}
 }
 
-func c17Oracle(prop string, n int, overflowSite string) func(tr *mc.Trace) []h.Violation {
+func c17Oracle(prop string, n int, overflowSite string, attributable bool) func(tr *mc.Trace) []h.Violation {
 	return func(tr *mc.Trace) []h.Violation {
 		vs := generic(tr, prop, true)
 		// acceptance order = order of the acknowledgements (tunnel) / of delivery to serve (router):
@@ -79,14 +80,24 @@ func c17Oracle(prop string, n int, overflowSite string) func(tr *mc.Trace) []h.V
 			vs = append(vs, h.Violation{Class: prop + ":lost-or-extra", Msg: fmt.Sprintf("received %v, want %d telegrams", got, n)})
 			return vs
 		}
+		spawns := 0
+		for _, e := range tr.Log {
+			if sp, ok := e.V.(mc.Spawned); ok && overflowSite != "" && strings.Contains(sp.Site, overflowSite) {
+				spawns++
+			}
+		}
 		for i := 1; i < len(got); i++ {
 			if got[i] < got[i-1] {
 				// got[i] was overtaken by got[i-1]
 				cls := prop + ":inversion:direct"
-				if overflowSite != "" && tr != nil {
+				if attributable {
+					if overflow[got[i]] {
+						cls = prop + ":inversion:overflow-goroutine"
+					}
+				} else if spawns > 0 {
 					cls = prop + ":inversion:overflow-goroutine"
 				}
-				vs = append(vs, h.Violation{Class: cls, Msg: fmt.Sprintf("received order %v (telegram %d overtaken by %d)", got, got[i], got[i-1])})
+				vs = append(vs, h.Violation{Class: cls, Msg: fmt.Sprintf("received order %v (telegram %d overtaken by %d; overflow goroutines spawned: %d)", got, got[i], got[i-1], spawns)})
 				break
 			}
 		}
@@ -116,11 +127,116 @@ func c17Tunnel(n int) func() {
 	}
 }
 
+func c17Router(n int) func() {
+	return func() {
+		sock := fakesock.New("udp")
+		r, _ := knx.NewRouterOnSocket(sock, knx.RouterConfig{RetainCount: 4})
+		for i := 0; i < n; i++ {
+			sock.Deliver(&knxnet.RoutingInd{Payload: Msg(i)})
+		}
+		c17Consumer(n, func() (interface{}, bool) { m, ok := r.Inbound().Recv2(); return m, ok }, "router")
+		r.Close()
+	}
+}
+
+func c17GroupTunnel(n int) func() {
+	return func() {
+		sock := fakesock.New("udp")
+		NewGateway(sock, 7)
+		gt, err := knx.NewGroupTunnelOnSocket(sock, TCfg(100, 350, 100000))
+		if err != nil {
+			mc.Log(Note("connect failed: " + err.Error()))
+			return
+		}
+		for i := 0; i < n; i++ {
+			sock.Deliver(&knxnet.TunnelReq{Channel: 7, SeqNumber: uint8(i), Payload: Msg(i)})
+		}
+		c17Consumer(n, func() (interface{}, bool) {
+			ev, ok := gt.Inbound().Recv2()
+			return &cemi.LDataInd{LData: cemi.LData{Destination: uint16(ev.Destination)}}, ok
+		}, "grouptunnel")
+		gt.Close()
+	}
+}
+
+func c17GroupRouter(n int) func() {
+	return func() {
+		sock := fakesock.New("udp")
+		gr, _ := knx.NewGroupRouterOnSocket(sock, knx.RouterConfig{RetainCount: 4})
+		for i := 0; i < n; i++ {
+			sock.Deliver(&knxnet.RoutingInd{Payload: Msg(i)})
+		}
+		c17Consumer(n, func() (interface{}, bool) {
+			ev, ok := gr.Inbound().Recv2()
+			return &cemi.LDataInd{LData: cemi.LData{Destination: uint16(ev.Destination)}}, ok
+		}, "grouprouter")
+		gr.Close()
+	}
+}
+
+// the group layer alone, on a source channel that is ordered by construction
+func c17GroupLayer(n int) func() {
+	return func() {
+		src := mc.NewChan[cemi.Message](0, "ordered-source")
+		out := mc.NewChan[knx.GroupEvent](0, "group-out")
+		mc.Go("harness:serveGroupInbound", func() { knx.ServeGroupInboundForTest(src, out) })
+		mc.GoEnv("producer", func() {
+			for i := 0; i < n; i++ {
+				src.Send(Msg(i))
+			}
+			src.Close()
+		})
+		c17Consumer(n, func() (interface{}, bool) {
+			ev, ok := out.Recv2()
+			return &cemi.LDataInd{LData: cemi.LData{Destination: uint16(ev.Destination)}}, ok
+		}, "grouplayer")
+		if _, ok := out.Recv2(); ok {
+			mc.Log(Note("group channel delivered an extra event"))
+		} else {
+			mc.Log(Note("group channel closed"))
+		}
+	}
+}
+
 func init() {
-	for _, n := range []int{2, 3} {
+	type mk struct {
+		name string
+		f    func(int) func()
+		site string
+		attr bool
+	}
+	for _, k := range []mk{
+		{"tunnel", c17Tunnel, "tunnel.go:pushInbound", true},
+		{"router", c17Router, "router.go:pushInbound", false},
+		{"grouptunnel", c17GroupTunnel, "tunnel.go:pushInbound", true},
+		{"grouprouter", c17GroupRouter, "router.go:pushInbound", false},
+		{"grouplayer-isolated", c17GroupLayer, "", false},
+	} {
+		for _, n := range []int{2, 3, 4, 5} {
+			tiers, D := "both", 3
+			switch {
+			case n == 4:
+				D = 2
+			case n == 5:
+				tiers, D = "thorough", 2
+			}
+			if n == 3 && (k.name == "grouptunnel" || k.name == "grouprouter") {
+				D = 2
+			}
+			if n == 4 && k.name != "tunnel" && k.name != "router" && k.name != "grouplayer-isolated" {
+				tiers = "thorough"
+			}
+			register(tiers, &h.Scenario{
+				Name: fmt.Sprintf("C17-%s-burst%d", k.name, n), Prop: "C17", P: 2, F: 0, D: D,
+				Run: k.f(n), Check: c17Oracle("C17", n, k.site, k.attr),
+			})
+		}
 		register("both", &h.Scenario{
-			Name: fmt.Sprintf("C17-tunnel-burst%d", n), Prop: "C17", P: 2, F: 0, D: 3,
-			Run: c17Tunnel(n), Check: c17Oracle("C17", n, "pushInbound"),
+			Name: fmt.Sprintf("C17-%s-flat64", k.name), Prop: "C17", P: 0, F: 0, D: -1,
+			Run: k.f(64), Check: c17Oracle("C17", 64, k.site, k.attr),
 		})
 	}
+	// unbounded preemptions for the smallest burst (classic context bounding with P=2, no delay bound)
+	register("thorough", &h.Scenario{Name: "C17-tunnel-burst2-p2", Prop: "C17", P: 2, F: 0, D: 0, Run: c17Tunnel(2), Check: c17Oracle("C17", 2, "tunnel.go:pushInbound", true), MaxExe: 3000000})
+	register("thorough", &h.Scenario{Name: "C17-grouplayer-isolated-burst3-p2", Prop: "C17", P: 2, F: 0, D: 0, Run: c17GroupLayer(3), Check: c17Oracle("C17", 3, "", false), MaxExe: 3000000})
 }
